@@ -299,6 +299,8 @@ class Exec:
 
     def find_method(self, cls, name):
         for c in self.mro(cls):
+            alt = self.ctx.c.names.get(c + '.' + name) if getattr(self, 'ctx', None) is not None else None
+            if isinstance(alt, str) and alt in CONTRACTS: return alt          # the contract under verification names the view of this callee it reasons with
             if c + '.' + name + '@call' in CONTRACTS: return c + '.' + name + '@call'      # call-site view of a contract verified elsewhere
             if c + '.' + name in CONTRACTS: return c + '.' + name
         return None
@@ -814,6 +816,7 @@ class Exec:
                     self.ctx.oblige(st, 'call:%s/param-%s-not-None@L%s' % (c.name, n, ln), z3.BoolVal(False), node, kind='call-param')
                 st.assume(z3.BoolVal(False)); env[n] = fresh('dead', ty)
             self.check_type(env[n], ty, 'argument %s of %s (line %s)' % (n, c.name, ln))
+        if not self.spec_mode and self.body_usable(c) and not c.is_property: st.hinted = True       # what is refuted from here on can be re-examined with the callee's body (exact mode)
         pre = st.fork(); pre.env = env
         saved_old = self.ctx.old
         if not self.spec_mode:
@@ -1009,6 +1012,12 @@ class Exec:
                 return ast.copy_location(ast.Call(func=a, args=[], keywords=[]), a), a, n, 'method'
         return None
 
+    def body_usable(self, cc):
+        '''exact mode only: a callee VERIFIED in the same file, whose contract carries no ghost instrumentation, may be executed in place of its contract'''
+        return (not cc.assumed and cc.file == self.ctx.c.file and not cc.ghost_update and not cc.ghost_at and not cc.ghost_out and not cc.variants
+                and not cc.pure and cc.name != self.ctx.c.name and not cc.name.endswith('@call') and not cc.invariant and not cc.func.endswith('@setter')
+                and not any('g_' in m for m in cc.modifies))
+
     def resolve_helper(self, s, top, repl, awaited, st):
         if isinstance(top, ast.Attribute) and not awaited: return self.resolve_property(top, st)
         if not isinstance(top, ast.Call): return None
@@ -1025,8 +1034,10 @@ class Exec:
                     # a verified contract that states NOTHING about the result or the final state (exceptions only) tells a new caller nothing: the body, when it is
                     # a small loop-free method of the same class, is executed in place instead (exact, hence stronger than the contract)
                     cc = CONTRACTS[m_]
-                    if cc.assumed or cc.ensures or cc.modifies or cc.suspends or cc.is_property or cc.pure or cc.variants or cc.ret is None or cc.file != self.ctx.c.file or cc.name == self.ctx.c.name: return None
-                    weak = True
+                    if getattr(self.ctx, 'inline_all', False) and self.body_usable(cc) and not cc.is_property: weak = False
+                    elif cc.assumed or cc.ensures or cc.modifies or cc.suspends or cc.is_property or cc.pure or cc.variants or cc.ret is None or cc.file != self.ctx.c.file or cc.name == self.ctx.c.name: return None
+                    elif os.environ.get('PYVC_NO_WEAK_INLINE'): return None
+                    else: weak = True
                 if any(b + '.' + f.attr in lib.MODULE_CONSTS for b in self.mro(recv.cls)): return None
                 cd = self.source_class(recv, st)
             else:
@@ -1048,7 +1059,8 @@ class Exec:
             n = f.id
             if n in st.env or n in ('old', 'forall', 'exists', 'implies', '_'): return None
             n2 = self.ctx.c.names.get(n, n)
-            if isinstance(n2, V) or n2 in SPECFUNS or n2 in lib.BUILTINS or n2 in CONTRACTS or n2 in lib.MODULE_CONSTS or n2 in CLASSES or n2 in EXC_BASES or n2 in lib.MODULES or n2 in lib.MODFUNCS or n in DROP_CALLS: return None
+            usable = getattr(self.ctx, 'inline_all', False) and isinstance(n2, str) and n2 in CONTRACTS and self.body_usable(CONTRACTS[n2]) and CONTRACTS[n2].func == n
+            if not usable and (isinstance(n2, V) or n2 in SPECFUNS or n2 in lib.BUILTINS or n2 in CONTRACTS or n2 in lib.MODULE_CONSTS or n2 in CLASSES or n2 in EXC_BASES or n2 in lib.MODULES or n2 in lib.MODFUNCS or n in DROP_CALLS): return None
             for x in source_tree(self.ctx.c.file)[1].body:
                 if isinstance(x, ast.FunctionDef) and x.name == n: fd = x
             if fd is None: return None
@@ -1850,12 +1862,13 @@ def repo_attribute_names():
 
 
 # ---------------------------------------------------------------------- top level
-def verify(contract, unroll=0, shard=(0, 1)):
+def verify(contract, unroll=0, shard=(0, 1), exact=False):
     """generate obligations for one function under contract"""
     c = contract
     node, seg, lines = load_function(c.file, c.func)
     ctx = Ctx(c)
     ctx.unroll = unroll
+    ctx.inline_all = bool(exact)
     ctx.source = seg; ctx.lines = lines
     ctx.loop_ids = {id(n): k for k, n in enumerate(x for x in ast.walk(node) if isinstance(x, (ast.For, ast.While)))}
     ex = Exec(ctx)
